@@ -132,10 +132,39 @@ inline Result compare(const std::vector<Poly>& originals, const std::vector<Poly
     sim::Rng r(seed);
     int wanted = 160;
     double band2 = manh ? 0.0 : (1.5 * 64) * (1.5 * 64);
-    for (int t = 0; t < wanted * 4 && (int)R.samples_used < wanted; t++) {
+    // besides the points scattered over the box, points next to the edges of the originals: two grid steps to
+    // either side of the middle of an edge (a small part that went missing - an island, a thin piece - is
+    // found by its own edges, however large the box around it)
+    std::vector<Sample> aimed;
+    {
+        size_t edges = 0;
+        for (auto& p : originals) edges += p.size();
+        size_t stride = edges > 600 ? edges / 600 + 1 : 1, k = 0;
+        for (auto& p : originals)
+            for (size_t i = 0; i < p.size(); i++, k++) {
+                if (k % stride) continue;
+                const IPt& a = p[i];
+                const IPt& b = p[(i + 1) % p.size()];
+                double dx = (double)(b.x - a.x), dy = (double)(b.y - a.y), len = hypot(dx, dy);
+                if (len == 0) continue;
+                double mx = (a.x + b.x) * 32.0, my = (a.y + b.y) * 32.0;  // middle, in 1/64 units
+                for (int side = -1; side <= 1; side += 2) {
+                    Sample s;
+                    s.x = (int64_t)llround(mx - side * dy / len * 128.0) | 1;
+                    s.y = (int64_t)llround(my + side * dx / len * 128.0) | 1;
+                    aimed.push_back(s);
+                }
+            }
+    }
+    size_t aimed_at = 0;
+    for (int t = 0; (t < wanted * 4 && (int)R.samples_used < wanted) || aimed_at < aimed.size(); t++) {
         Sample s;
-        s.x = (xmin - 2) * 64 + (int64_t)r.below((uint64_t)(xmax - xmin + 4) * 64);
-        s.y = (ymin - 2) * 64 + (int64_t)r.below((uint64_t)(ymax - ymin + 4) * 64);
+        if (aimed_at < aimed.size()) {
+            s = aimed[aimed_at++];
+        } else {
+            s.x = (xmin - 2) * 64 + (int64_t)r.below((uint64_t)(xmax - xmin + 4) * 64);
+            s.y = (ymin - 2) * 64 + (int64_t)r.below((uint64_t)(ymax - ymin + 4) * 64);
+        }
         s.x |= 1;  // odd sub-position: never on an integer axis-parallel line
         s.y |= 1;
         int in_orig = 0;
